@@ -7,7 +7,7 @@ from io_drawer import dump as iod
 
 FUNCTIONS = ["pel.hexdump.hexdump", "pel.hexdump.parse", "peltool.printPELInHexFormat", "io_drawer.dump.HEX_DUMP_LINE_FORMATS"]
 
-FILL = bytes((37 * i + 11) % 256 for i in range(64))     # mixes printable / non-printable / hex letters
+FILL = bytes((37 * i + 11) % 256 for i in range(16400))  # mixes printable / non-printable / hex letters
 
 RT_CASES = []
 for L in (1, 2, 16, 17, 32, 33):
@@ -30,6 +30,8 @@ HARNESSES = [
      "timeout": {"quick": 90, "thorough": 300}},
     {"fn": "h_hexdisplay", "cases": ["L17:p15", "L33:p0", "L40:p31"], "quick_cases": ["L17:p15"],
      "timeout": {"quick": 90, "thorough": 300}},
+    # a file larger than 16 KiB (1025 dump lines traced per path: thorough tier only)
+    {"fn": "h_hexdisplay", "cases": ["L16400:p16399:w1"], "tiers": ["thorough"], "timeout": {"thorough": 1500}, "per_path_timeout": 400},
 ]
 BOUNDS = {"shape": "bytes_per_line, bytes_per_chunk symbolic in 1..6 with data length 0..2*bpl+1, plus 9 concrete layouts "
                    "with symbolic length; data bytes concrete",
@@ -38,7 +40,7 @@ BOUNDS = {"shape": "bytes_per_line, bytes_per_chunk symbolic in 1..6 with data l
           "address": "one line whose 8-digit (default) / 4-digit (BMC format) address is symbolic over all values",
           "formats": "both I/O-drawer formats; 1 symbolic byte (2 in two cases) at catalogue positions, symbolic hex-digit "
                      "case, short last line cut or blank-padded, one comment or blank line at a symbolic position, or "
-                     "lines with their trailing newline", "hex display": "PEL files of 17, 33, 40 bytes, 2 symbolic bytes"}
+                     "lines with their trailing newline", "hex display": "PEL files of 17, 33, 40 and 16400 bytes, 2 symbolic bytes"}
 ASSUMPTIONS = ["print replaced by a recorder in h_hexdisplay (module-attribute stub)"]
 OUTSIDE = ["layouts other than those listed", "three or more interacting special bytes", "data longer than 40 bytes"]
 
